@@ -36,7 +36,8 @@ with `TokenKind::is_*` of the real token; bits 0–7 as in `Rules.Env.wordFlags`
 12 pronoun · 13 adverb · 14 not-plural nominal · 15 the dictionary knows the word (`Word(Some(_))`;
 for a text that is not a token: `get_word_metadata(text).is_some()`) · 16 / 17 `preposition` /
 `determiner` of the metadata merged with that of the lower-cased word (what `should_capitalize_token`
-reads).
+reads) · (18 / 19: `Model/Rules2.lean`) · 20 `is_nominal() && !is_adjective()` / 21 `is_noun() && !is_proper_noun()` (the
+predicates `SplitCompoundWord::new` is given by the compound-noun rules, `Model/MergeRules.lean`) · 22 auxiliary verb.
 -/
 namespace Harper.Leaves
 open Harper Harper.Chunks Harper.Rules
@@ -97,6 +98,16 @@ inductive Closure where
   | yourNominal
   /-- confident.rs: `is_verb() || is_determiner()` -/
   | verbOrDeterminer
+  /-- compound_nouns/general_compound_nouns.rs, first element: `let Some(Some(meta)) = tok.kind.as_word() else { return false };
+  meta.determiner || meta.is_adjective()` -/
+  | determinerOrAdjective
+  /-- … its third and fifth element: `tok.span.len() > 1 && !meta.determiner && !meta.preposition && !meta.is_adverb()` behind the
+  same `let … else`; `Span::len` subtracts (`start > end` is an overflow panic) -/
+  | compoundPart
+  /-- compound_nouns/implied_instantiated_compound_nouns.rs: `tok.kind.is_auxiliary_verb()` (bit 22) -/
+  | auxiliaryVerb
+  /-- pronoun_contraction/avoid_contraction.rs: `tok.kind.is_nominal() && !tok.kind.is_likely_homograph()` -/
+  | nominalNotHomograph
   deriving Repr, DecidableEq, Inhabited
 
 /-- `slice::ends_with` -/
@@ -118,6 +129,13 @@ def Closure.test (env : Env) (c : Closure) (src : List Char) (t : Tok) : Except 
       | .error e => .error e
       | .ok cs => .ok (cs != ['g', 'u', 'y', 's'])
   | .verbOrDeterminer => .ok (hasFlag env src t 7 || hasFlag env src t 4)
+  | .determinerOrAdjective => .ok (hasFlag env src t 15 && (hasFlag env src t 4 || hasFlag env src t 3))
+  | .compoundPart =>
+    if !hasFlag env src t 15 then .ok false
+    else if t.span.start > t.span.stop then .error .underflow
+    else .ok (decide (t.span.len > 1) && !hasFlag env src t 4 && !hasFlag env src t 0 && !hasFlag env src t 13)
+  | .auxiliaryVerb => .ok (hasFlag env src t 22)
+  | .nominalNotHomograph => .ok (hasFlag env src t 6 && !hasFlag env src t 2)
 
 inductive Leaf where
   /-- `then_<q>()` (`neg = false`) / `then_anything_but_<q>()` (`neg = true`) / `then_any_word()` -/
